@@ -676,6 +676,71 @@ def pc_level_paths(tree):
     return out
 
 
+def completion_shape(tree):
+    """Tokens describing where the `_pc_level` decrement of an asynchronous coroutine happens and whether the program
+    counter is restored on every path (see Barrier.completion_shape_wf).  Fail-closed: exact statement shapes only."""
+    fn = {}
+    for n in ast.walk(tree):
+        if isinstance(n, ast.FunctionDef):
+            fn.setdefault(n.name, []).append(n)
+    out = []
+
+    def bad(what, node=None):
+        return 'unrecognised: %s%s' % (what, (' ' + ' ;; '.join(ast.unparse(node).split('\n'))[:160]) if node is not None else '')
+    ta = fn.get('typed_asyncoro', [None])[0]
+    rec = fn.get('_reconcile', [None])[0]
+    if ta is None or rec is None or len(fn.get('typed_asyncoro', [])) != 1 or len(fn.get('_reconcile', [])) != 1:
+        return [bad('typed_asyncoro/_reconcile not found exactly once')]
+    body = ta.body
+    src = [ast.unparse(b) for b in body]
+    # 1. increment first, then the coroutine object
+    out.append('increment_first' if len(body) >= 2 and src[0] == 'runtime._pc_level += 1' and src[1] == 'coro = func(*args, **kwargs)'
+               else bad('typed_asyncoro does not start with the increment', body[0]))
+    # 2. `if rettype:` branch neutral
+    ifr = body[2] if len(body) > 2 and isinstance(body[2], ast.If) and ast.unparse(body[2].test) == 'rettype' else None
+    if ifr is None or any('_pc_level' in ast.unparse(b) for b in ifr.body) or \
+            [ast.unparse(b) for b in ifr.body] != ['decl = returnType(rettype, wrap=False)'] or \
+            len(ifr.orelse) != 1 or not isinstance(ifr.orelse[0], ast.Try):
+        out.append(bad('declaration branch', body[2] if len(body) > 2 else None))
+    else:
+        out.append('declaration_neutral')
+    # 3. straight-line tail after the no_async block
+    idx = next((k for k, b in enumerate(body) if isinstance(b, ast.If) and ast.unparse(b.test) == 'runtime.options.no_async'), None)
+    tail = body[idx + 1:] if idx == 3 else None
+    want_tail = ['if pc:\n    coro = _wrap_in_coro(_ProgramCounterWrapper(runtime, coro))',
+                 'task = Task(coro, loop=runtime._loop)', 'task.f_back = sys._getframe(1)',
+                 'task.add_done_callback(lambda t: _reconcile(decl, t))', 'return _ncopy(decl)']
+    if tail is None or [ast.unparse(b) for b in tail] != want_tail:
+        out.append(bad('task tail of typed_asyncoro', ast.Module(body=tail or body[-3:], type_ignores=[])))
+    else:
+        out.append('task_tail_straight')
+    # 4. _reconcile: decrement first, unconditionally, exactly once
+    rb = [b for b in rec.body if not (isinstance(b, ast.Expr) and isinstance(b.value, ast.Constant))]
+    ndec = sum(1 for n in ast.walk(rec) if isinstance(n, (ast.AugAssign, ast.Assign)) and '_pc_level' in ast.unparse(n))
+    out.append('reconcile_first' if rb and ast.unparse(rb[0]) == 'runtime._pc_level -= 1' and ndec == 1
+               else bad('_reconcile', rb[0] if rb else None))
+    # 5. wrapper: restore in finally
+    aw = None
+    for n in ast.walk(tree):
+        if isinstance(n, ast.ClassDef) and n.name == '_ProgramCounterWrapper':
+            aw = next((f for f in n.body if isinstance(f, ast.FunctionDef) and f.name == '__await__'), None)
+    ok = False
+    if aw is not None and len(aw.body) == 1 and isinstance(aw.body[0], ast.While) and ast.unparse(aw.body[0].test) == 'True':
+        wb = aw.body[0].body
+        if len(wb) == 4 and isinstance(wb[2], ast.Try):
+            t = wb[2]
+            ok = (ast.unparse(wb[0]) == 'pc = self.runtime._program_counter'
+                  and ast.unparse(wb[1]) == 'self.runtime._program_counter = self.pc'
+                  and [ast.unparse(b) for b in t.body] == ['val = self.coro.send(None)']
+                  and len(t.handlers) == 1 and ast.unparse(t.handlers[0].type) == 'StopIteration'
+                  and [ast.unparse(b) for b in t.handlers[0].body] == ['return exc.value']
+                  and [ast.unparse(b) for b in t.orelse] == ['self.pc = self.runtime._program_counter']
+                  and [ast.unparse(b) for b in t.finalbody] == ['self.runtime._program_counter = pc']
+                  and ast.unparse(wb[3]) == 'yield val')
+    out.append('wrapper_finally' if ok else bad('_ProgramCounterWrapper.__await__', aw))
+    return out
+
+
 def shutdown_order(tree):
     """Order of the relevant statements in Runtime.shutdown: ['wait_level', 'transfer', 'close', 'await_own']."""
     seq = []
@@ -746,13 +811,14 @@ def generate(write=True, verbose=False):
     aco = an.mods['asyncoro']
     paths = pc_level_paths(aco)
     order = shutdown_order(an.mods['runtime'])
+    comp = completion_shape(aco)
     unset = unset_condition(an.mods['runtime'])
     info = {
         'n_pc': sum(1 for r in rows if r[1] == 'PC'), 'n_nopc': sum(1 for r in rows if r[1] == 'NoPC'),
         'flagged': {k: [list(h) for h in v] for k, v in detail.items() if v},
         'assumed_public_param_ops': {k: [list(x) for x in v] for k, v in assumed_all.items()},
         'touching_functions': len(an.touch_funcs),
-        'pc_level_paths': [list(p) for p in paths], 'shutdown_order': order, 'unset_condition': unset,
+        'pc_level_paths': [list(p) for p in paths], 'shutdown_order': order, 'unset_condition': unset, 'completion_shape': comp,
         'rows': [list(r) for r in rows],
     }
     if write:
@@ -768,7 +834,8 @@ def generate(write=True, verbose=False):
                   'Definition pc_level_paths : list (string * nat * nat * bool) := [']
         lines.append(';\n'.join('  (%s, %d, %d, %s)' % (coqstr(n), i, d, 'true' if t else 'false') for n, i, d, t, _ in paths))
         lines += ['].', '', 'Definition shutdown_order : list string := [%s].' % '; '.join(coqstr(x) for x in order),
-                  'Definition unset_condition : string := %s.' % coqstr(unset), '']
+                  'Definition unset_condition : string := %s.' % coqstr(unset),
+                  'Definition completion_shape : list string := [%s].' % '; '.join(coqstr(x) for x in comp), '']
         _write(os.path.join(gen, 'CoroTable.v'), '\n'.join(lines))
         _write(os.path.join(gen, 'CoroWf.v'), '\n'.join([
             '(* GENERATED obligation: every NoPC coroutine of the current source is pc-silent after its first await *)',
@@ -777,7 +844,7 @@ def generate(write=True, verbose=False):
         _write(os.path.join(gen, 'CoroBalanced.v'), '\n'.join([
             '(* GENERATED obligation: every exit path of typed_asyncoro is balanced; shutdown statement order *)',
             'From Coq Require Import List String Bool.', 'Require Import MPyC.Barrier MPyCGen.CoroTable.',
-            'Theorem all_balanced : balanced pc_level_paths = true.', 'Proof. vm_compute. reflexivity. Qed.',
+            'Theorem all_balanced : balanced pc_level_paths && completion_shape_wf completion_shape = true.', 'Proof. vm_compute. reflexivity. Qed.',
             'Theorem shutdown_order_ok : shutdown_order_wf shutdown_order && unset_condition_wf unset_condition = true.',
             'Proof. vm_compute. reflexivity. Qed.', '']))
     if verbose:
